@@ -1559,7 +1559,9 @@ class QueryBuilder(Selectable, Term):
             if groupby_alias and field.alias and field.alias in selected_aliases:
                 clauses.append(format_quotes(field.alias, alias_quote_char or quote_char))
             else:
-                clauses.append(field.get_sql(quote_char=quote_char, alias_quote_char=alias_quote_char, **kwargs))
+                clauses.append(
+                    field.get_sql(quote_char=quote_char, alias_quote_char=alias_quote_char, subquery=True, **kwargs)
+                )
 
         sql = " GROUP BY {groupby}".format(groupby=",".join(clauses))
 
@@ -1591,7 +1593,7 @@ class QueryBuilder(Selectable, Term):
             term = (
                 format_quotes(field.alias, alias_quote_char or quote_char)
                 if orderby_alias and field.alias and field.alias in selected_aliases
-                else field.get_sql(quote_char=quote_char, alias_quote_char=alias_quote_char, **kwargs)
+                else field.get_sql(quote_char=quote_char, alias_quote_char=alias_quote_char, subquery=True, **kwargs)
             )
 
             clauses.append(
